@@ -74,9 +74,36 @@ def corrupt_one_observation(path):
     open(path, "w").write("\n".join(lines) + "\n")
 
 
+def parallel(ctx, thunks, width):
+    """Run thunks (each takes its own sub-context: own scratch directory and counters) in `width` threads and fold
+    the counters of the sub-contexts into ctx. Results are returned in the order of `thunks` (deterministic)."""
+    from concurrent.futures import ThreadPoolExecutor
+    subs = [verif.Ctx(ctx.pid, ctx.tier, ctx.seed) for _ in thunks]
+    for sub in subs:
+        sub.t0 = ctx.t0
+    with ThreadPoolExecutor(max_workers=max(1, width)) as ex:
+        futs = [ex.submit(th, sub) for th, sub in zip(thunks, subs)]
+        outs, first_exc = [], None
+        for f in futs:
+            try:
+                outs.append(f.result())
+            except Exception as e:      # noqa - re-raised below, after every thread has finished
+                outs.append(None)
+                first_exc = first_exc or e
+    for sub in subs:
+        ctx.states += sub.states
+        ctx.transitions += sub.transitions
+        ctx.tlc_runs += sub.tlc_runs
+    if first_exc:
+        raise first_exc
+    return outs
+
+
 def run(ctx):
     quick = ctx.tier == "quick"
-    W = int(os.environ.get("VERIF_TLC_WORKERS", "8"))
+    ncpu = os.cpu_count() or 4
+    PAR = int(os.environ.get("VERIF_C17_PAR", "4" if ncpu >= 8 else "2"))          # TLC runs side by side
+    W = int(os.environ.get("VERIF_TLC_WORKERS", str(max(2, min(8, ncpu // PAR)))))   # workers of each
     ctx.rule = ("a case is one behaviour: a maximal path of the gate-granularity state graph of ServiceGated.tla / ManagerGated.tla "
                 "(environment calls and gate releases, TLC prints one path per transition of the graph; distinct by construction), or one "
                 "recorded trace of racing goroutines; non-trivial = the service left New (replay: some transition happened; manager: healthy or "
@@ -85,32 +112,48 @@ def run(ctx):
                        "the harness gates (service functions, listener callbacks, services.VerifYield) are the only blocking points",
                        "stamps of one atomic counter order recorded call/return events soundly (real-time order)"]
     ctx.exhaustive = True
-    jobs = []
-
     stages = set((os.environ.get("VERIF_C17_STAGES") or "replay,model,record").split(","))   # development aid
 
-    # ---- 1. F4 (thorough tier: explicit TLC run): the specification of StopAsync as it is in the pinned code violates
-    #         NoNilCancelCall; the counterexample is replayed below. The quick tier takes the same witness from the
-    #         behaviours of MC_gated_core (a printed state with nilCalls > 0 is a counterexample of the invariant).
+    def tlc_ok(module, cfg, **kw):
+        """a TLC run that must finish without error and without violation"""
+        def th(sub):
+            kw.setdefault("timeout", 3000)
+            kw.setdefault("workers", W)
+            r = sub.tlc("services", module, cfg=cfg + ".cfg", **kw)
+            sub.require_tlc_ok(r, cfg)
+            return r
+        return th
+
+    # ---- 1. behaviours of the gate-granularity graphs (Service.tla's invariants are checked on them as well).
+    # F4: MC_nilcancel.cfg (thorough tier) is the explicit TLC run in which the specification of StopAsync as it is in the
+    # pinned code violates NoNilCancelCall; its counterexample is replayed. The quick tier takes the same witness from the
+    # behaviours of MC_gated_core (a printed state with nilCalls > 0 is a counterexample of the invariant).
+    gated = ["MC_gated_core", "MC_gated_modes", "MC_gated_wait", "MC_gated_nilfn"] if quick else \
+            ["MC_gated_core3", "MC_gated_wait", "MC_gated_nilfn5", "MC_gated_lw", "MC_gated_l2"]
+    mg = [("MC_mgated_cover" if quick else "MC_mgated_cover1", None, None), ("MC_mgated_sim", "num=%d" % (40 if quick else 400), 40)]
     if not quick:
-        r = ctx.tlc("services", "ServiceGated", cfg="MC_nilcancel.cfg", timeout=300, workers=1, count=False)
-        if r.timed_out or r.error:
-            incon("MC_nilcancel: %s" % (r.error or "timeout"))
-        if r.violated != "NoNilCancelCallEmit" or r.emitted == 0:
-            incon("MC_nilcancel: the unguarded StopAsync model is expected to violate NoNilCancelCall; TLC said %r" % r.violated)
-        first = open(r.out_path).readline()      # keep the first counterexample only
+        mg.append(("MC_mgated_sim3", "num=300", 60))
+    thunks = [tlc_ok("ServiceGated", cfg, heap="3g") for cfg in gated]
+    thunks += [tlc_ok("ManagerGated", cfg, heap="3g", simulate=sim, depth=depth, count=not sim, workers=(W if not sim else 2))
+               for cfg, sim, depth in mg]
+    if not quick:
+        def nilcancel(sub):
+            r = sub.tlc("services", "ServiceGated", cfg="MC_nilcancel.cfg", timeout=600, workers=1, count=False, heap="2g")
+            if r.timed_out or r.error:
+                incon("MC_nilcancel: %s" % (r.error or "timeout"))
+            if r.violated != "NoNilCancelCallEmit" or r.emitted == 0:
+                incon("MC_nilcancel: the unguarded StopAsync model is expected to violate NoNilCancelCall; TLC said %r" % r.violated)
+            return r
+        thunks.append(nilcancel)
+    outs = parallel(ctx, thunks, PAR)
+    jobs, emitted = [], {}
+    if not quick:
+        first = open(outs[-1].out_path).readline()      # keep the first counterexample only
         cex = ctx.path("f4_cex.ndjson")
         open(cex, "w").write(first)
         ctx.extra["f4_spec_counterexample"] = [s[0] + ":" + str(s[1]) for s in json.loads(first)["h"][1:]]
         jobs.append(dict(kind="service", name="MC_nilcancel(counterexample of NoNilCancelCall)", **{"in": cex}, **GATED["MC_nilcancel"]))
-
-    # ---- 2. behaviours of the gated graphs (the invariants of Service.tla are checked on them as well)
-    gated = ["MC_gated_core", "MC_gated_modes", "MC_gated_wait", "MC_gated_nilfn"] if quick else \
-            ["MC_gated_core3", "MC_gated_wait", "MC_gated_nilfn5", "MC_gated_lw", "MC_gated_l2"]
-    emitted = {}
-    for cfg in gated:
-        r = ctx.tlc("services", "ServiceGated", cfg=cfg + ".cfg", timeout=3000, workers=W)
-        ctx.require_tlc_ok(r, cfg)
+    for cfg, r in zip(gated + [m[0] for m in mg], outs):
         if r.emitted == 0:
             incon("%s emitted nothing" % cfg)
         emitted[cfg] = r.emitted
@@ -125,24 +168,14 @@ def run(ctx):
             if best is None:
                 incon("%s: the unguarded StopAsync model is expected to reach a call of the nil serviceCancel" % cfg)
             ctx.extra["f4_spec_counterexample"] = [s[0] + ":" + str(s[1]) for s in best["h"][1:]]
-        if os.environ.get("VERIF_C17_CORRUPT") == "obs" and cfg in ("MC_gated_core", "MC_gated_core3"):
+        if os.environ.get("VERIF_C17_CORRUPT") == "obs" and cfg.startswith("MC_gated_core"):
             corrupt_one_observation(r.out_path)
-        jobs.append(dict(kind="service", name=cfg, **{"in": r.out_path}, **GATED[cfg]))
+        if cfg in GATED:
+            jobs.append(dict(kind="service", name=cfg, **{"in": r.out_path}, **GATED[cfg]))
+        else:
+            jobs.append(dict(kind="manager", name=cfg, **{"in": r.out_path}, **MGATED[cfg]))
 
-    # manager behaviours: exhaustive cover for a small manager, simulation for larger ones
-    mg = [("MC_mgated_cover" if quick else "MC_mgated_cover1", None, None), ("MC_mgated_sim", "num=%d" % (40 if quick else 400), 40)]
-    if not quick:
-        mg.append(("MC_mgated_sim3", "num=300", 60))
-    for cfg, sim, depth in mg:
-        r = ctx.tlc("services", "ManagerGated", cfg=cfg + ".cfg", timeout=3000, workers=W if not sim else 4, simulate=sim, depth=depth,
-                    count=not sim)
-        ctx.require_tlc_ok(r, cfg)
-        if r.emitted == 0:
-            incon("%s emitted nothing" % cfg)
-        emitted[cfg] = r.emitted
-        jobs.append(dict(kind="manager", name=cfg, **{"in": r.out_path}, **MGATED[cfg]))
-
-    # ---- 3. replay everything on the real code (one child process; a crash of the code is a mismatch, not a dead run)
+    # ---- 2. replay everything on the real code (child processes: a crash of the code is a mismatch, not a dead run)
     manifest = ctx.path("jobs.json")
     json.dump(jobs, open(manifest, "w"))
     res = ctx.run_harness("c17", "^TestReplay$", env={"VERIF_JOBS": manifest}, timeout=3000)
@@ -165,51 +198,70 @@ def run(ctx):
         ctx.inconclusive_note("development run: stages %s only" % sorted(stages))
         return "model_checking"
 
-    # ---- 4. the property itself: exhaustive model checking at the granularity of the critical sections
+    # ---- 3. the property itself: exhaustive model checking at the granularity of the critical sections; side by side,
+    #         code -> spec: traces of free-running goroutines are recorded
     fine = ["MC_svc_quick", "MC_svc_wait"] if quick else ["MC_svc_quick", "MC_svc_wait", "MC_svc_lw", "MC_svc_full", "MC_svc_live"]
-    never = None
-    for cfg in fine:
-        cov = (not quick) and cfg in ("MC_svc_quick", "MC_svc_wait")
-        r = ctx.tlc("services", "Service", cfg=cfg + ".cfg", timeout=3000, workers=W, subst=subst, coverage=cov)
-        ctx.require_tlc_ok(r, cfg)
-        if cov:     # vacuity guard: every action of Service.tla is taken in at least one of the two configurations
-            never = set(r.coverage_zero) if never is None else never & set(r.coverage_zero)
+    covcfg = () if quick else ("MC_svc_quick", "MC_svc_wait")
+    thunks = [tlc_ok("Service", cfg, subst=subst, coverage=cfg in covcfg) for cfg in fine]
+    mcfgs = ["MC_mgr_quick"] if quick else ["MC_mgr_quick", "MC_mgr2", "MC_mgr_live"]
+    thunks += [tlc_ok("Manager", cfg, coverage=(cfg == "MC_mgr2")) for cfg in mcfgs]
+    names = fine + mcfgs
+    # soundness of the binding: AbsService simulates ServiceGated; Settle is confluent
+    thunks.append(tlc_ok("ServiceGated", "MC_gated_abs", heap="2g", workers=2))
+    names.append("MC_gated_abs")
+    if not quick:
+        thunks.append(tlc_ok("Manager", "MC_mgr3", simulate="num=3000", depth=80, count=False, workers=2))
+        names.append("MC_mgr3")
+        for cfg in ["MC_confl_quick", "MC_confl_nil", "MC_confl"]:
+            thunks.append(tlc_ok("ServiceConfl", cfg))
+            names.append(cfg)
+        # failure fan-in: FailureWatcher.tla
+        thunks.append(tlc_ok("FailureWatcher", "MC_fw", workers=2, heap="2g"))
+        names.append("MC_fw")
+
+        def fw_noreader(sub):     # without a reader Close cannot return: expected witness (an observation, see FailureWatcher.tla)
+            r = sub.tlc("services", "FailureWatcher", cfg="MC_fw_noreader.cfg", timeout=600, workers=2, count=False, heap="2g")
+            if "CloseReturns was violated" not in r.log:
+                incon("MC_fw_noreader: expected the witness of Close blocking without a reader, TLC said %r %r" % (r.violated, r.error))
+            return r
+
+        def qfull(sub):           # tightness witness: all four transitions can sit in a listener queue (the buffer of 4 is needed)
+            r = sub.tlc("services", "Service", cfg="MC_svc_qfull.cfg", timeout=600, workers=2, subst=subst, count=False, heap="2g")
+            if r.violated != "QueueNeverFull":
+                incon("MC_svc_qfull: expected the witness of a full listener queue, TLC said %r %r" % (r.violated, r.error))
+            return r
+        thunks += [fw_noreader, qfull]
+        names += ["MC_fw_noreader", "MC_svc_qfull"]
+
+    ntr = 120 if quick else 1000
+    trace = ctx.path("trace.ndjson")
+
+    def record(sub):
+        return sub.run_harness("c17", "^TestRecord$", env={"VERIF_TRACE": trace, "VERIF_NTRACES": ntr}, timeout=1800)
+    if "record" in stages:
+        thunks.append(record)
+        names.append("record")
+    outs = dict(zip(names, parallel(ctx, thunks, PAR)))
+    never = None          # vacuity guard: every action of Service.tla is taken in at least one of the two configurations
+    for cfg in covcfg:
+        z = set(outs[cfg].coverage_zero)
+        never = z if never is None else never & z
     if never:
         incon("Service.tla: actions never taken: %s" % sorted(never)[:8])
-    mcfgs = ["MC_mgr_quick"] if quick else ["MC_mgr_quick", "MC_mgr2", "MC_mgr_live"]
-    for cfg in mcfgs:
-        r = ctx.tlc("services", "Manager", cfg=cfg + ".cfg", timeout=3000, workers=W, coverage=(cfg == "MC_mgr2"))
-        ctx.require_tlc_ok(r, cfg)
-        if r.coverage_zero:
-            incon("%s: actions never taken: %s" % (cfg, r.coverage_zero[:6]))
-    if not quick:
-        r = ctx.tlc("services", "Manager", cfg="MC_mgr3.cfg", timeout=3000, workers=4, simulate="num=3000", depth=80, count=False)
-        ctx.require_tlc_ok(r, "MC_mgr3 (simulation)")
-    # soundness of the binding: AbsService simulates ServiceGated; Settle is confluent
-    r = ctx.tlc("services", "ServiceGated", cfg="MC_gated_abs.cfg", timeout=3000, workers=W)
-    ctx.require_tlc_ok(r, "MC_gated_abs")
-    for cfg in ([] if quick else ["MC_confl_quick", "MC_confl_nil", "MC_confl"]):
-        r = ctx.tlc("services", "ServiceConfl", cfg=cfg + ".cfg", timeout=3000, workers=W)
-        ctx.require_tlc_ok(r, cfg)
-    if not quick:
-        # tightness witness: all four transitions can sit in a listener queue (the buffer of 4 is needed)
-        r = ctx.tlc("services", "Service", cfg="MC_svc_qfull.cfg", timeout=600, workers=4, subst=subst, count=False)
-        if r.violated != "QueueNeverFull":
-            incon("MC_svc_qfull: expected the witness of a full listener queue, TLC said %r %r" % (r.violated, r.error))
+    if not quick and outs["MC_mgr2"].coverage_zero:
+        incon("Manager.tla: actions never taken: %s" % outs["MC_mgr2"].coverage_zero[:8])
 
     if "record" not in stages:
         ctx.inconclusive_note("development run: stages %s only" % sorted(stages))
         return "model_checking"
 
-    # ---- 5. code -> spec: traces of free-running goroutines, validated by TLC
-    ntr = 120 if quick else 1500
-    trace = ctx.path("trace.ndjson")
-    rec = ctx.run_harness("c17", "^TestRecord$", env={"VERIF_TRACE": trace, "VERIF_NTRACES": ntr}, timeout=1200)
+    # ---- 4. the recorded traces are validated by TLC (ServiceTrace.tla infers the unlogged critical sections)
+    rec = outs["record"]
     if rec.get("fatal"):
         incon("recording: %s" % rec["fatal"])
     rec_panics = any(m.get("sig") == F4_SIG for m in rec.get("mismatches") or [])
     tguard = "FALSE" if (panics or rec_panics) else "TRUE"
-    r = ctx.tlc("services", "ServiceTrace", cfg="MC_trace.cfg", timeout=3000, workers=W, subst={"@@GUARD@@": tguard},
+    r = ctx.tlc("services", "ServiceTrace", cfg="MC_trace.cfg", timeout=3000, workers=min(16, W * PAR), subst={"@@GUARD@@": tguard},
                 extra_files={trace: "trace.ndjson"}, count=False)
     if r.timed_out or r.error or r.violated:
         incon("trace validation: %s" % (r.error or r.violated or "timeout"))
@@ -217,7 +269,7 @@ def run(ctx):
     for ln in open(r.out_path):
         accepted.add(json.loads(ln)["accepted"])
     rejected = [t for t in range(1, ntr + 1) if t not in accepted]
-    rec["cases"] = len(accepted)
+    rec["cases"] = len(accepted) + 1      # + the FailureWatcher probe
     ctx.absorb(rec, "record")
     ctx.extra["traces_recorded"] = ntr
     ctx.extra["trace_validation_states"] = r.distinct
